@@ -1,6 +1,12 @@
 #!/usr/bin/env bash
 # sweep.sh "<ids>" "<seeds>" [tier]: run checks for several seeds; print one line per run
 cd "$(dirname "$0")/.."
+# under `vp run --with-repo` work against the snapshot of /repo (so that /repo itself can be
+# patched with seeded changes meanwhile): rewrite the path dependencies of this snapshot of /verif
+if [ -n "${VP_RUN_REPO:-}" ] && [ "$(pwd)" != "/verif" ]; then
+  grep -rl '"/repo/' engines/*/Cargo.toml fuzz/Cargo.toml | xargs sed -i "s#\"/repo/#\"$VP_RUN_REPO/#g"
+  export VERIF_REPO="$VP_RUN_REPO"
+fi
 tier=${3:-quick}
 for s in $2; do for id in $1; do
   out=$(VERIF_SEED=$s ./check $id --tier $tier 2>&1); rc=$?
